@@ -126,7 +126,9 @@ CHECKS = {
             "len(ops) <= min(cap, slice cap), Speak-first with the documented intent, RequestRetrieve only below tau_low, monotone intent; "
             "config->bundle->plan->utterance chain so configured caps/thresholds/budgets are the ones that bind; speaker: templates with "
             "every/unknown placeholders and stray braces, budgets 1-256, LLM stub/raising adapters: token count <= budget also after the "
-            "utterance filter; full turns: <= 1 retrieval refinement; sanitiser: valid PLANNER_V1 objects mutated (fences, prose, size, "
+            "utterance filter; full turns: <= 1 retrieval refinement COUNTED per turn also for runtime max_rag_loops 2..16, the planner "
+            "entry points the orchestrator really calls (legacy facade, package export, run_policy), dict/namespace/dataclass configs; "
+            "llm_planner: a plan comes only from text the sanitiser accepts; sanitiser: valid PLANNER_V1 objects mutated (fences, prose, size, "
             "nesting, types, NaN, surrogates) + atheris: never raises, accepted => single JSON object within limits validating against "
             "the repo's schema.",
             "Trusted: reference rules transcribed from docs/tests inside checks/c13.py; jsonschema for PLANNER_V1.",
@@ -148,7 +150,7 @@ CHECKS = {
             "alphabets to fixpoint (2.4e5 transitions quick, 9.7e6 thorough) comparing return values, eviction reports, sizes, LRU order "
             "and stats after every op; 200-step random machines; 2-4 threads under 1us switching and settrace pre-emption (no lost "
             "update, consistency, linearizability for small histories); merge independent of worker list order.",
-            "Trusted: harness/models/lru.py written from docstrings/docs; undocumented corners (age==ttl, negative costs) are not asserted.",
+            "Trusted: harness/models/lru.py written from docstrings/docs; the undocumented age==ttl rule is probed once on _NamespaceCache.get and every other TTL reader must follow the same rule; negative costs are not asserted.",
             "DESIGN.md §3 C15"),
     "C16": ("exploration",
             "Hypothesis property tests and reference models for append/normalise/stager/compaction/rotation, multi-process multi-thread writer rounds with schedule-independent oracles, crash-point enumeration for compaction and rotation in forked children",
